@@ -31,7 +31,11 @@ func main() {
 	if root == "" {
 		root = "/verif"
 	}
-	bin := filepath.Join(root, "harness", ".build", "k8snetpolicy")
+	bdir := os.Getenv("VERIF_BUILD_DIR")
+	if bdir == "" {
+		bdir = filepath.Join(root, "harness", ".build")
+	}
+	bin := filepath.Join(bdir, "k8snetpolicy")
 	self, _ := os.Executable()
 	switch os.Args[1] {
 	case "run":
@@ -43,7 +47,7 @@ func main() {
 		tier := os.Args[3]
 		seed := envInt("VERIF_SEED", 1)
 		workers := int(envInt("VERIF_WORKERS", int64(runtime.NumCPU())))
-		os.Exit(run.Drive(ck, tier, seed, self, bin, root, workers, filepath.Join(root, "harness", ".build", "vcheck-race")))
+		os.Exit(run.Drive(ck, tier, seed, self, bin, root, workers, filepath.Join(bdir, "vcheck-race")))
 	case "worker":
 		a := os.Args[2:]
 		ck := run.Registry[a[0]]
